@@ -209,7 +209,7 @@ func cmdCheck(args []string) int {
 		vc.attachFindings(findings, prop)
 		vcs = append(vcs, vc)
 	}
-	opts := SolveOpts{TimeoutS: 10, WorkDir: work, Workers: 16}
+	opts := SolveOpts{TimeoutS: 20, WorkDir: work, Workers: 16}
 	if *tier == "thorough" {
 		opts.TimeoutS = 60
 		opts.Consensus = true
@@ -318,6 +318,9 @@ func cmdCheck(args []string) int {
 			}
 			if len(samples) < 12 || o.Status != "unsat" {
 				samples = append(samples, oblReport{shortKey(o.Name), statusWord(o.Status), o.Solver, round3(o.TimeS)})
+			}
+			if os.Getenv("GOVC_SLOW") != "" && o.TimeS >= 2 {
+				fmt.Fprintf(os.Stderr, "SLOW %.1fs %s %s\n", o.TimeS, statusWord(o.Status), shortKey(o.Name))
 			}
 		}
 	}
